@@ -64,12 +64,28 @@ def generate_for(prop, rng):
     faults = {"subset_mode": weighted(rng, [("faithful", 3), ("first", 1), ("last", 1), ("adversary", 2)]),
               "steer_p": weighted(rng, [(0.0, 4), (0.3, 3), (0.6, 3)]), "steer_seed": rng.randrange(2 ** 31),
               "steer_bias": weighted(rng, [("uniform", 2), ("switch_early", 2)])}
-    return {"scenario": "kauri_growth", "config": cfg, "ops": [{"op": "fit"}], "faults": faults}
+    ops = []
+    if rng.random() < 0.3:
+        kinds = [("fit", 3), ("score", 2), ("predict", 1.5), ("set_params", 3), ("fit_no_kernel", 2), ("score_no_kernel", 2), ("bad_fit", 1)]
+        for _ in range(rng.randint(1, 4)):
+            k = weighted(rng, kinds)
+            op = {"op": k, "data": rng.randrange(2)}
+            if k == "set_params":
+                op["change"] = choice(rng, [["max_clusters", rng.randint(1, 6)], ["max_features", choice(rng, [None, 1, 2])],
+                                            ["max_depth", choice(rng, [None, 1, 2, 3])], ["max_leaves", choice(rng, [None, 2, 3, 5])],
+                                            ["kernel", choice(rng, KERNELS)], ["kernel", choice(rng, KERNELS)],
+                                            ["min_samples_split", max(2, 2 * msl + rng.randint(0, 3))], ["verbose", True]])
+            if k == "bad_fit":
+                op["bad"] = choice(rng, [["max_clusters", 0], ["min_samples_split", 1], ["min_samples_leaf", 0]])
+            ops.append(op)
+    ops.append({"op": "fit", "data": 0})
+    cfg["n2"] = n if rng.random() < 0.5 else rng.randint(2, 14)
+    return {"scenario": "kauri_growth", "config": cfg, "ops": ops, "faults": faults}
 
 
-def make_kauri_data(cfg):
-    rs = np.random.RandomState(cfg["data_seed"])
-    n, d = cfg["n"], cfg["d"]
+def make_kauri_data(cfg, which=0):
+    rs = np.random.RandomState((cfg["data_seed"] + 104729 * which) % (2 ** 31))
+    n, d = (cfg["n"] if which == 0 else cfg.get("n2", cfg["n"])), cfg["d"]
     kind = cfg.get("data_kind", "continuous")
     if kind == "integers":
         X = rs.randint(0, 4, size=(n, d)).astype(np.float64)
@@ -167,6 +183,7 @@ class KauriOracle:
         self.last_gain = None
         self.kinds_chosen = []
         self.saw_double_star = False
+        self.expected_kernel = kernel_matrix
         self.n = len(X)
         from .. import pyx2py
         ns, info = pyx2py.load()
@@ -199,6 +216,12 @@ class KauriOracle:
                              {"leaf": j, "size": size, "min_samples_split": p["min_samples_split"]})
             if self.depth.get(j, 0) >= max_depth:
                 self.violate("C09:explored_deep_leaf", {"leaf": j, "depth": self.depth.get(j), "max_depth": max_depth})
+        # C08: the objective is the user's kernel — the matrix handed to the finder must be the kernel of THIS call
+        if self.events == 1 and self.expected_kernel is not None:
+            ek = self.expected_kernel
+            if np.shape(kernel) != np.shape(ek) or not np.allclose(kernel, ek, rtol=1e-12, atol=1e-12):
+                self.violate("C08:kernel_mismatch", {"what": "the kernel used for growth is not the kernel of this call "
+                                                             "(named kernel of the data, or the user's precomputed matrix)"})
         # C08: the candidate features handed to the finder are exactly the subset drawn for this step
         lc = getattr(self.rs, "last_choice", None)
         want_k = X.shape[1] if p["max_features"] is None else min(X.shape[1], max(p["max_features"], 1))
@@ -440,42 +463,93 @@ def execute_for(prop, record):
     steer_rng = random.Random(faults.get("steer_seed", 0))
     sub_rng = random.Random(faults.get("steer_seed", 0) ^ 0xABCDEF)
     try:
-        X, A = make_kauri_data(cfg)
         from gemclus.tree import Kauri
         from sklearn.metrics import pairwise_kernels
+        pool = [make_kauri_data(cfg, 0), make_kauri_data(cfg, 1)]
         world = World(log, res, sub_rng)
         rs = SimRandomState(np.random.RandomState(cfg["rs_seed"]), log, rng=sub_rng, subset_mode=faults.get("subset_mode", "faithful"),
                             result=res)
         model = Kauri(random_state=rs, **p)
-        kernel_matrix = A if p["kernel"] == "precomputed" else pairwise_kernels(X, metric=p["kernel"])
-        oracle = KauriOracle(res, world, cfg, faults, X, kernel_matrix, steer_rng)
-        oracle.rs = rs
-        world.split_hook = oracle
-        n = len(X)
-        expect_reject = (2 * p["min_samples_leaf"] > p["min_samples_split"]) or n < p["min_samples_leaf"]
+        cur = dict(p)                       # the hyper-parameters the user has set so far
+        oracle = None
         with world, quiet():
-            log.emit("OP", op="fit", phase="begin")
-            try:
-                model.fit(X, A)
-                log.emit("OP", op="fit", phase="end")
-                fitted = True
-            except (SimFault, SimBudget):
-                raise
-            except ValueError as e:
-                if is_harness_frame(e):
-                    raise
-                fitted = False
-                if expect_reject:
-                    res.probe("rejected_by_validation")
+            for op in record["ops"]:
+                kind = op["op"]
+                X, A = pool[op.get("data", 0)]
+                log.emit("OP", op=kind, phase="begin")
+                if kind in ("fit", "fit_no_kernel"):
+                    yarg = A if (kind == "fit" and cur["kernel"] == "precomputed") else None
+                    if cur["kernel"] == "precomputed":
+                        # documented fallback: no matrix passed -> linear kernel (with a warning)
+                        kernel_matrix = A if yarg is not None else pairwise_kernels(X, metric="linear")
+                    else:
+                        kernel_matrix = pairwise_kernels(X, metric=cur["kernel"])
+                    c2 = dict(cfg)
+                    c2["params"] = cur
+                    oracle = KauriOracle(res, world, c2, faults, X, kernel_matrix, steer_rng)
+                    oracle.rs = rs
+                    rs.last_choice = None
+                    world.split_hook = oracle
+                    n = len(X)
+                    expect_reject = (2 * cur["min_samples_leaf"] > cur["min_samples_split"]) or n < cur["min_samples_leaf"]
+                    fitted = False
+                    try:
+                        model.fit(X, yarg)
+                        fitted = True
+                    except (SimFault, SimBudget):
+                        raise
+                    except ValueError as e:
+                        if is_harness_frame(e):
+                            raise
+                        if expect_reject:
+                            res.probe("rejected_by_validation")
+                        else:
+                            res.violate(f"C09:raised:ValueError@{exc_site(e)}", {"msg": str(e)[:200], "op": kind})
+                    except Exception as e:
+                        if is_harness_frame(e):
+                            raise
+                        res.violate(f"C09:raised:{type(e).__name__}@{exc_site(e)}", {"msg": str(e)[:200], "op": kind})
+                    if fitted:
+                        final_checks(res, oracle, model, c2, X, yarg, kernel_matrix, np.random.RandomState(cfg["data_seed"] ^ 0x51))
+                    world.split_hook = None
+                    if kind == "fit_no_kernel":
+                        res.probe("fits_without_kernel_argument")
                 else:
-                    res.violate(f"C09:raised:ValueError@{exc_site(e)}", {"msg": str(e)[:200]})
-            except Exception as e:
-                if is_harness_frame(e):
-                    raise
-                fitted = False
-                res.violate(f"C09:raised:{type(e).__name__}@{exc_site(e)}", {"msg": str(e)[:200]})
-            if fitted:
-                final_checks(res, oracle, model, cfg, X, A, kernel_matrix, np.random.RandomState(cfg["data_seed"] ^ 0x51))
+                    try:
+                        if kind == "score":
+                            model.score(X, A if cur["kernel"] == "precomputed" else None)
+                        elif kind == "score_no_kernel":
+                            model.score(X)
+                        elif kind == "predict":
+                            model.predict(X)
+                        elif kind == "set_params":
+                            name, val = op["change"]
+                            model.set_params(**{name: val})
+                            cur[name] = val
+                        elif kind == "bad_fit":
+                            name, val = op["bad"]
+                            old = model.get_params()[name]
+                            model.set_params(**{name: val})
+                            try:
+                                model.fit(X, A if cur["kernel"] == "precomputed" else None)
+                            except (SimFault, SimBudget):
+                                raise
+                            except Exception as e:
+                                if is_harness_frame(e):
+                                    raise
+                                res.fault("invalid_param_fit")
+                            model.set_params(**{name: old})
+                    except (SimFault, SimBudget):
+                        raise
+                    except Exception as e:
+                        if is_harness_frame(e):
+                            raise
+                        res.probe("prefix_raised:" + kind + ":" + type(e).__name__)
+                    res.probe("prefix_" + kind)
+                log.emit("OP", op=kind, phase="end")
+        p = cur
+        if oracle is None:
+            raise HarnessError("no fit op in the record")
         if prop == "C09":
             res.nontrivial = bool(res.probes.get("trees_with_split"))
             t = getattr(model, "tree_", None)
